@@ -286,9 +286,9 @@ let bad_b k s =
 (** val locked : bool **)
 
 let locked =
-  false
+  true
 
 (** val discipline : nat **)
 
 let discipline =
-  O
+  S O
